@@ -195,6 +195,16 @@ def fitted(family, profile="current"):
         else:
             m = em.HourlyModel().fit(base, ignore_disqualification=True)
         out = (m, lambda mm: mm.predict(rep, ignore_disqualification=True), em.HourlyModel)
+    elif family in ("hourly_no_edge_bins", "hourly_no_intercept"):
+        # profiles the constructor accepts whose stored form has a null / scalar where the default profile has a table / vector
+        meter, temp, meta = load_sample("il-electricity-cdd-hdd-hourly")
+        df = pd.concat([meter.rename(columns={"value": "observed"}), temp.rename("temperature")], axis=1).dropna()
+        base = em.HourlyBaselineData(df.iloc[: 24 * 400], is_electricity_data=True)
+        rep = em.HourlyReportingData(df.iloc[24 * 400: 24 * 440], is_electricity_data=True)
+        st = {"seed": 3, "temperature_bin": {"include_edge_bins": False, "edge_bin_rate": None, "edge_bin_percent": None}} if family == "hourly_no_edge_bins" else \
+            {"seed": 3, "elasticnet": {"fit_intercept": False}}
+        m = em.HourlyModel(settings=st).fit(base, ignore_disqualification=True)
+        out = (m, lambda mm: mm.predict(rep, ignore_disqualification=True), em.HourlyModel)
     elif family == "hourly_supplemental":
         # a profile with a supplemental time-series column whose NAME has upper-case letters (the settings keep names as given)
         meter, temp, meta = load_sample("il-electricity-cdd-hdd-hourly")
@@ -257,7 +267,8 @@ def run(tier="quick", seed=0):
                     case = {"kind": "params", "family": family, "shape": shape, "split": split, "warn": warn}
                     _one(b, case, (family, shape, split, warn))
     fits = [("daily", "current"), ("hourly", "current"), ("hourly_solar", "current"), ("hourly_solar_reordered", "current"), ("daily", "legacy"), ("billing", "current"),
-            ("caltrack_hourly", "current"), ("hourly_supplemental", "current"), ("daily_netmetered", "current"), ("caltrack_hourly_partial", "current")]
+            ("caltrack_hourly", "current"), ("hourly_supplemental", "current"), ("daily_netmetered", "current"), ("caltrack_hourly_partial", "current"),
+            ("hourly_no_edge_bins", "current"), ("hourly_no_intercept", "current")]
     # developer-mode profiles whose overrides include options set to None (stored as null)
     for family in ("daily", "billing"):
         case = {"kind": "params", "family": family, "shape": "hdd_tidd_cdd_smooth", "split": "season2", "warn": False,
